@@ -158,6 +158,18 @@ def check_case(f, var, d, rng):
                     err = f"matrix has {G.shape[1]} columns, slices cover {start}"
                 if err is None and part == "group" and tuple(got.factors_with_new_levels) != tuple(fnl):
                     err = f"factors_with_new_levels={tuple(got.factors_with_new_levels)}, expected {tuple(fnl)}"
+                if err is None and part == "group" and mode == "silent":
+                    # the derived object evaluated again: on the same new frame (the same factors have new groups), and on the frame
+                    # without unseen values (none has) - the comparison is with the training design, not with the object at hand
+                    try:
+                        again = tuple(got.evaluate_new_data(new).factors_with_new_levels)
+                        back = tuple(got.evaluate_new_data(seen).factors_with_new_levels)
+                        if again != tuple(fnl):
+                            err = f"derived.evaluate_new_data(same new frame).factors_with_new_levels={again}, expected {tuple(fnl)}"
+                        elif back != ():
+                            err = f"derived.evaluate_new_data(frame without unseen groups).factors_with_new_levels={back}, expected ()"
+                    except Exception as ex:
+                        err = f"evaluating new data on a derived matrix raised {type(ex).__name__}: {ex}"
                 if err != "case not judged":
                     res.append((f, tag, err or "ok"))
     formulae.config["EVAL_UNSEEN_CATEGORIES"] = "error"
